@@ -99,6 +99,11 @@ def query_fresh(rep, prog, fn):
         v = strip(r["value"])
         while v.get("k") in ("CXXConstructExpr", "MaterializeTemporaryExpr", "CXXBindTemporaryExpr", "ExprWithCleanups", "ImplicitCastExpr", "ParenExpr") and len([c for c in v.get("c", []) if isinstance(c, dict)]) == 1:
             v = strip([c for c in v["c"] if isinstance(c, dict)][0])
+        shared = [d_ for d_ in walk(fn["body"]) if d_.get("k") == "Var" and d_.get("static_local") and v.get("k") == "DeclRefExpr" and d_.get("did") == (v.get("ref") or {}).get("did")]
+        if shared:
+            rep.violation("C20.query-fresh", prog, fn, r, "query answers from a buffer shared between calls",
+                          "%s returns the function-local static '%s' (%s): every call of the query on the same thread - on any grid of that element type - refills that one list, so a result that the caller still holds (a reference bound to the first neighbourhood while a second one is taken) silently becomes the answer to another query: neighbours of the first point are missing" % (fn["qn"], shared[0].get("name"), shared[0].get("t")))
+            continue
         if v.get("k") == "MemberExpr" and (v.get("ref") or {}).get("dk") == "Field":
             rep.violation("C20.query-fresh", prog, fn, r, "query answers from the member %s" % v["ref"].get("name"),
                           "%s returns the data member %s: a result kept from an earlier call. An object placed in one of the 26 surrounding voxels after that call is missing from the answer although it lies within one voxel size of the query point" % (fn["qn"], v["ref"].get("name")))
@@ -564,6 +569,14 @@ def loop_ranges(rep, prog, fn):
     seen_axes = []
     msgs = []
     for l in loops:
+        c0 = strip(l.get("cond") or {})
+        while c0.get("k") == "ParenExpr" and c0.get("c"):
+            c0 = strip(c0["c"][0])
+        early = [x for x in walk(l.get("body") or {}, into_lambdas=False) if x.get("k") in ("BreakStmt", "GotoStmt") and fi.enclosing(x, ("ForStmt", "WhileStmt", "DoStmt", "CXXForRangeStmt", "SwitchStmt")) is l]
+        if (c0.get("k") == "BinaryOperator" and c0.get("op") in ("&&", "||")) or early:
+            rep.violation("C20.loop-ranges", prog, fn, l, "%s: the scan can stop before the end of its range" % fn["name"],
+                          "%s::%s: the loop at line %s runs under '%s'%s: the scan ends before all the voxels of its range were visited whenever that other condition says so - a count kept next to the voxels is maintained by some of the mutators only (place_object, not update_voxel), so objects stored in the voxels that were not visited are missing from the answer" % (fn.get("cls"), fn["name"], l.get("l"), short(c0, 70), " and has a break" if early else ""))
+            return
         try:
             d = l["init"]["decls"][0]
             lo = sp.sympify(ev.ev(d["init"]))
